@@ -185,8 +185,11 @@ pub fn run_case(c: &FwCase) -> FwRun {
 }
 
 pub fn run_case_on<K: HClock>(c: &FwCase, k: &K) -> FwRun {
+    run_case_with_rng(c, k, ScriptRng::new(c.script.clone(), c.seed))
+}
+
+pub fn run_case_with_rng<K: HClock, R: rand_core::RngCore>(c: &FwCase, k: &K, rng: R) -> FwRun {
     let mut run = FwRun::default();
-    let rng = ScriptRng::new(c.script.clone(), c.seed);
     verif::arm(STEP_BUDGET);
     let fw = catch_unwind(AssertUnwindSafe(|| {
         Framework::new(&c.machines[..], c.fpad, c.fblk, k.inst(c.t0), rng)
